@@ -140,8 +140,8 @@ def run_pair(case):
 
 
 PARTS = [
-    Part("ledger", strategy=lambda tier: B.histories(tier), run=run_ledger, quick=4000, thorough=400000),
-    Part("twin", strategy=lambda tier: B.histories(tier), run=run_twin, quick=1500, thorough=100000),
-    Part("sparse", strategy=lambda tier: B.histories(tier), run=run_sparse, quick=4000, thorough=400000),
-    Part("pair", strategy=lambda tier: pair_cases(tier), run=run_pair, quick=2000, thorough=150000),
+    Part("ledger", strategy=lambda tier: B.histories(tier), run=run_ledger, quick=4000, thorough=240000),
+    Part("twin", strategy=lambda tier: B.histories(tier), run=run_twin, quick=1500, thorough=60000),
+    Part("sparse", strategy=lambda tier: B.histories(tier), run=run_sparse, quick=4000, thorough=240000),
+    Part("pair", strategy=lambda tier: pair_cases(tier), run=run_pair, quick=2000, thorough=80000),
 ]
